@@ -11,8 +11,8 @@ def hooks_commits():
         return []
 
 CHECKS = {
- "C13": ("memo+sched", "model_checking", "explicit-state exploration of the projection memo tables + stateless preemption-bounded exploration of real OS threads under a controlled (baton) scheduler",
-         "Histories: every ordered pair (with echo) and every same-sector triple of 480 projection ops on fresh instances, BFS to closure over the memo-table states of small universes, and all ordered pairs/triples of ~40 public calls in fresh OS threads; every result must be bitwise equal to its cold value and every filled slot canonical. Schedules: depth-first enumeration of all interleavings of 2-3 real OS threads (real thread_local!/OnceLock/LazyLock) at the hook points up to a preemption bound, with warm globals in-process and with cold globals in a fresh process per execution; monitors: bitwise results, instance exclusivity, initialisers at most once, deadlock; violating schedules are replayed before being reported.",
+ "C13": ("memo+sched", "model_checking", "explicit-state exploration of the projection memo tables + stateless preemption-bounded exploration of real OS threads under a controlled (baton) scheduler (+ seed-enumerated Miri schedules and a free-running pass as auxiliaries)",
+         "Histories: every ordered pair (with echo) and every same-sector triple of 480 projection ops on fresh instances, BFS to closure over the memo-table states of small universes, and all ordered pairs/triples of ~40 public calls in fresh OS threads; every result must be bitwise equal to its cold value and every filled slot canonical. Schedules: depth-first enumeration of all interleavings of 2-3 real OS threads (real thread_local!/OnceLock/LazyLock) at the hook points up to a preemption bound, with warm globals in-process and with cold globals in a fresh process per execution; monitors: bitwise results, instance exclusivity, initialisers at most once, deadlock; violating schedules are replayed before being reported. Two auxiliary passes for shared state outside the hook points, reported separately and never used to claim that the property holds: first-touch calls of 2-3 threads under Miri's deterministic scheduler (one reproducible schedule per seed, preemption possible at every basic block), and a free-running pass in fresh processes.",
          "Switch points only at the hook points (memo reads/stores, entry/exit of forward/inverse, first two accesses per lazy table); memory-ordering effects below that are not explored. loom/shuttle are not used because their coroutine threads would share std thread_local! state.", "5 C13"),
  "C14": ("totality", "exploration", "exhaustive enumeration of structured id / resolution / coordinate classes x every public function in two build profiles, each probe in a resource-limited child process",
          "Every combination of a catalogue of ~15 k structured 64-bit patterns (every top-6 value x marker position x payload class), 87 resolution classes and 90 coordinate classes with every public function is executed in the release and in the overflow-checked build inside child processes (1 GiB address space, 10 s watchdog): the call must return, out-of-range resolutions must be rejected, results must be canonical ids of the requested resolution, non-cell bit patterns must be rejected or behave exactly as the canonical cell they alias.",
@@ -94,7 +94,7 @@ def main():
     na = [{"property_id": p, "reason": "check not yet registered in this revision (being built; see DESIGN.md section 0)"} for p in props if p not in CHECKS]
     m = {
         "version": 1,
-        "setup_cmd": "cd /verif/harness && CARGO_NET_OFFLINE=true cargo build --release --offline && CARGO_NET_OFFLINE=true cargo build --profile checked --offline",
+        "setup_cmd": "cd /verif/harness && CARGO_NET_OFFLINE=true cargo build --release --offline && CARGO_NET_OFFLINE=true cargo build --profile checked --offline && (cd /verif/miri-harness && CARGO_TARGET_DIR=/verif/target/miri CARGO_NET_OFFLINE=true MIRIFLAGS='-Zmiri-disable-isolation -Zmiri-ignore-leaks -Zmiri-deterministic-floats' cargo +nightly miri run --offline -q -- 0 >/dev/null 2>&1 || true)",
         "hooks": {
             "guard": "cargo feature \"verif\" (#[cfg(feature = \"verif\")])",
             "enable": "the harness crate depends on a5 = { path = \"/repo\", features = [\"verif\"] }; cargo rebuilds a5 from /repo's working tree on every check",
